@@ -4,8 +4,9 @@ SPEC = dict(
     observers=[dict(cmd="obs_lua", imports=["Model.LuaExec"], case_type="LuaExec.case", check="LuaExec.check_case",
                     n={"quick": 1200, "thorough": 30000}, shard=150)],
     rule="histories of 1-9 Exec / ExecMulti (0-5 LuaExec) calls on one Lua value built by each of the seven constructor forms (plain, "
-         "read-only, NoSha, read-only NoSha, retryable, LoadSHA1, read-only LoadSHA1) with a script that writes and returns its argument, "
-         "replies with an error, or replies with a fabricated NOSCRIPT error; per script command received the fault hook applies an environment "
+         "read-only, NoSha, read-only NoSha, retryable, LoadSHA1, read-only LoadSHA1) with one of eleven scripts that write and then reply: their argument, an error, a "
+         "fabricated NOSCRIPT / ERR NOSCRIPT error, or a NON-error reply that looks like one (bulk or status string starting with NOSCRIPT / ERR NOSCRIPT, "
+         "a string containing it, an integer, an array holding such strings); per script command received the fault hook applies an environment "
          "step: flush the script cache first (1/3), reject with NOSCRIPT or another error, or execute and kill the connection before the reply; "
          "a case is non-trivial when at least one script command reached the server; distinct by the whole description",
     trusted=["fake Redis server + scripting engine: script cache, NOSCRIPT replies, execution log of script bodies (Engine.Runs)",
